@@ -683,6 +683,7 @@ def _m_sort_values(self, interp):
             new = RowAxis(self.axis.root, self.axis.doms, ("sorted", tuple(by)), sel=self.axis.sel)
         else:
             new = RowAxis(self.axis.root, self.axis.doms, ("sorted", tuple(by)))
+            new.sortkey = [self.col(b).t for b in by]
         return self._new(new, index=("labels", self.index))
 
     return sort_values
@@ -844,7 +845,43 @@ def _m_groupby(self, interp):
 
 def _m_query(self, interp):
     def query(expr, **kw):
-        raise Undecided(f"DataFrame.query({expr!r})")
+        """DataFrame.query for comparison expressions between a column and an @local / literal"""
+        import ast as _ast
+        import re
+
+        _use("DataFrame.query('<col> <op> @local'): row filter by the comparison (local variables of the caller via @)")
+        src = re.sub(r"@([A-Za-z_][A-Za-z_0-9]*)", r"__at_\1", expr)
+        try:
+            tree = _ast.parse(src, mode="eval")
+        except SyntaxError:
+            raise Undecided(f"DataFrame.query({expr!r})")
+        env = getattr(interp, "cur_env", None)
+
+        def ev(n):
+            if isinstance(n, _ast.Compare) and len(n.ops) == 1:
+                a, b = ev(n.left), ev(n.comparators[0])
+                import operator as _op
+
+                ops = {_ast.Gt: _op.gt, _ast.GtE: _op.ge, _ast.Lt: _op.lt, _ast.LtE: _op.le, _ast.Eq: _op.eq, _ast.NotEq: _op.ne}
+                if type(n.ops[0]) in ops:
+                    return ops[type(n.ops[0])](a, b)
+                if isinstance(n.ops[0], _ast.In):
+                    return interp.contains(b, a)
+                raise Undecided(f"query operator in {expr!r}")
+            if isinstance(n, _ast.Name):
+                if n.id.startswith("__at_"):
+                    if env is None:
+                        raise Undecided("query with @local outside interpreted code")
+                    return env.get(n.id[5:], interp)
+                return self.col(n.id)
+            if isinstance(n, _ast.Constant):
+                return n.value
+            raise Undecided(f"DataFrame.query({expr!r})")
+
+        mask = ev(tree.body)
+        if not isinstance(mask, V):
+            raise Undecided(f"DataFrame.query({expr!r}) did not produce a row mask")
+        return self.filter(V(mask.t, (self.axis,), None, mask.nan))
 
     return query
 
